@@ -320,7 +320,9 @@ fn exhaustive_small(n: usize, ws: &[usize], max_edges: usize, out: &mut Vec<Grap
     rec(&slots, 0, ws, &mut Vec::new(), max_edges, n, out);
 }
 
-fn random_cell(rng: &mut Rng, allow_isolated_boundary: bool) -> Case {
+/// random cell.  `overlap`: some boundary nodes are incoming AND outgoing; `isolated`: boundary
+/// nodes that no in-cell edge touches are kept (they reach only themselves)
+fn random_cell(rng: &mut Rng, overlap: bool, isolated: bool) -> Case {
     // node ids are sparse so that the renumbering does something
     let total = 2 + rng.below(9) as usize;
     let mut pool: Vec<usize> = (0..(total * 3 + 2)).collect();
@@ -330,9 +332,25 @@ fn random_cell(rng: &mut Rng, allow_isolated_boundary: bool) -> Case {
     let l = 1 + rng.below((total - k).min(4) as u64) as usize;
     let mut inc: Vec<usize> = pool[0..k].to_vec();
     inc.sort();
-    let out: Vec<usize> = pool[k..k + l].to_vec(); // any order, disjoint from inc
+    let mut out: Vec<usize> = pool[k..k + l].to_vec(); // any order
+    if overlap {
+        // replace / add outgoing nodes by incoming ones
+        let cnt = 1 + rng.below(k as u64) as usize;
+        for _ in 0..cnt {
+            let x = *rng.pick(&inc);
+            if !out.contains(&x) {
+                if rng.chance(1, 2) && !out.is_empty() {
+                    let pos = rng.below(out.len() as u64) as usize;
+                    out[pos] = x;
+                } else {
+                    out.push(x);
+                }
+            }
+        }
+        rng.shuffle(&mut out);
+    }
     let wmax = *rng.pick(&[1i64, 3, 10, 1000]);
-    let m = rng.below((total * 3) as u64) as usize;
+    let m = if isolated && rng.chance(1, 4) { rng.below(3) as usize } else { rng.below((total * 3) as u64) as usize };
     let mut edges = Vec::new();
     for _ in 0..m {
         let u = *rng.pick(&pool);
@@ -342,8 +360,14 @@ fn random_cell(rng: &mut Rng, allow_isolated_boundary: bool) -> Case {
             edges.push((u, v, rng.range(0, wmax) as usize));
         }
     }
-    if !allow_isolated_boundary && !edges.is_empty() {
-        // every boundary node touches an edge (it is on the boundary of the cell because of one)
+    if isolated {
+        // edges only among the small incoming ids, so that later boundary ids are beyond the subgraph
+        if rng.chance(1, 2) {
+            let keep = inc[0];
+            edges.retain(|e| e.0 == keep && e.1 == keep || rng.chance(1, 6));
+        }
+    } else if !edges.is_empty() {
+        // every boundary node touches an edge
         for b in inc.iter().chain(out.iter()) {
             if !edges.iter().any(|e| e.0 == *b || e.1 == *b) {
                 let o = *rng.pick(&pool);
@@ -351,7 +375,13 @@ fn random_cell(rng: &mut Rng, allow_isolated_boundary: bool) -> Case {
             }
         }
     }
-    cell_case("cell", &inc, &out, &edges)
+    let fam = match (overlap, isolated) {
+        (false, false) => "cell",
+        (true, false) => "cell-overlap",
+        (false, true) => "cell-isolated",
+        (true, true) => "cell-overlap-isolated",
+    };
+    cell_case(fam, &inc, &out, &edges)
 }
 
 pub fn generate_mode(rng: &mut Rng, tier: Tier, cases: &mut Vec<Case>, mode: Mode) {
@@ -389,6 +419,11 @@ pub fn generate_mode(rng: &mut Rng, tier: Tier, cases: &mut Vec<Case>, mode: Mod
             &[(0, 2, 1), (0, 3, 2), (0, 4, 3), (1, 2, 4), (1, 3, 5), (1, 4, 6)],
         ));
         cases.push(cell_case("witness-d5", &[0, 1, 2], &[3, 4], &[(0, 3, 1), (0, 4, 2), (1, 3, 3), (1, 4, 4), (2, 3, 5), (2, 4, 6), (3, 4, 1)]));
+        // fixed in /repo (26300e7): boundary node on both sides; boundary node beyond the subgraph
+        cases.push(cell_case("witness-cell-overlap", &[1, 2], &[2, 3], &[(1, 2, 4), (2, 3, 5)]));
+        cases.push(cell_case("witness-cell-overlap", &[5], &[5], &[(5, 6, 1)]));
+        cases.push(cell_case("witness-cell-isolated", &[1, 2], &[3], &[(1, 1, 5)]));
+        cases.push(cell_case("witness-cell-isolated", &[1, 2], &[2], &[]));
     }
     let (n_random, n_lowered, n_convex, n_reuse, n_ties, n_cells, ex_scope) = match (tier, mode) {
         (Tier::Quick, Mode::C08) => (500, 400, 100, 100, 200, 400, (3usize, 3usize)),
@@ -417,9 +452,8 @@ pub fn generate_mode(rng: &mut Rng, tier: Tier, cases: &mut Vec<Case>, mode: Mod
     for _ in 0..n_ties {
         cases.push(ties(rng).to_case("ties"));
     }
-    let iso = std::env::var("TBX_C08_ISOLATED_BOUNDARY").is_ok();
-    for _ in 0..n_cells {
-        cases.push(random_cell(rng, iso));
+    for i in 0..n_cells {
+        cases.push(random_cell(rng, i % 4 == 1 || i % 4 == 3, i % 4 >= 2));
     }
 }
 
